@@ -41,7 +41,11 @@ func New(g Config) *Position {
 }
 
 func (p *Position) Clone() *Position {
-	return alloc(p)
+	c := alloc(p)
+	// alloc resets WhiteGroups and leaves BlackGroups pointing into
+	// p's storage; recompute both into the clone's own storage.
+	c.analyze()
+	return c
 }
 
 type Square []Piece
